@@ -8,6 +8,7 @@
     update <i> <hexrec>  → update <i> ok|cf|nf|noinit
     stored               → stored <hexrecord> | stored nf        (raw engine read of the election key)
     init <i>             → init <i> 0|1                           (is the candidate's tso non-zero)
+    info <i>             → info <i> ok                            (the node's read-only endpoints; state unchanged)
     race <create|update> <hexrec_0> … <hexrec_{n-1}>   → race <kind> <number of ok> <1>
         every candidate k issues the call with record k; the implementation does so from n goroutines at
         once and reports how many succeeded and whether the stored record afterwards is consistent with
@@ -76,6 +77,10 @@ def step (s : State) (toks : List String) : State × String :=
     let k := atou i
     if k ≥ s.n then (s, s!"init {i} bad-index") else
     (s, s!"init {i} {if (s.st.cands k).tso = 0 then 0 else 1}")
+  | ["info", i] =>
+    -- the node's read-only endpoints (leader.GetElectionInfo / GetLeaderInfo / IsLeader): no step of the lock
+    let k := atou i
+    if k ≥ s.n then (s, s!"info {i} bad-index") else (s, s!"info {i} ok")
   | "race" :: kind :: recs =>
     if recs.length ≠ s.n || (kind ≠ "create" && kind ≠ "update") then (s, "race bad-op") else
     let r := (recs.zipIdx).foldl (fun (acc : KB.Election.State × Nat) (p : String × Nat) =>
